@@ -519,8 +519,8 @@ no longer filtered by `np.isin`, or the fall-back copies `seg` instead of `seg[:
 theorem clearTemp_cleanup_is_filterSoma (t : Table) (s : Soma) :
     cleanUpBy Navis.Gen.SomaSpec.clearTemp t s = filterSoma t s := cleanUpBy_clearTemp t s
 
-/-- The block in `_subset_treeneuron`, as extracted, is the model's `filterSomaSubset` (its guard does not
-exclude a stored detection function, which is why that function is lost). -/
+/-- The block in `_subset_treeneuron`, as extracted, is the model's `filterSomaSubset` (its guard excludes a
+stored detection function, like the one of `_clear_temp_attr`). -/
 theorem subset_cleanup_is_filterSomaSubset (t : Table) (s : Soma) :
     cleanUpBy Navis.Gen.SomaSpec.subsetTree t s = filterSomaSubset t s := cleanUpBy_subsetTree t s
 
@@ -586,9 +586,10 @@ example : GoodSt (histS.foldl (stepS unitLen) sY) :=
 /-- the cyclic edge list (1–2, 2–3, 3–1 and a self loop) is turned into a tree rooted at the requested node 2 -/
 example : (fromEdges [3, 1, 2] [(1, 2), (2, 3), (3, 1), (2, 2)] [2]).map (fun n => (n.id, n.parent, n.label)) =
     [(3, 2, .end_), (1, 2, .end_), (2, -1, .root)] := by decide
-/-- `_subset_treeneuron` replaces a stored detection FUNCTION by `None` (the skeleton then reports no soma),
-`_clear_temp_attr` leaves it alone -/
-example : (stepS unitLen sY (.tab (.base (.subset [1, 2, 3])) (fun _ => 0) [3])).soma = .none := by decide
+/-- neither clean-up touches a stored detection FUNCTION: after a subset the surviving thick node is still
+reported (before the repair of `_subset_treeneuron` the function was replaced by `None` there) -/
+example : (stepS unitLen sY (.tab (.base (.subset [1, 2, 3])) (fun _ => 0) [3])).soma = .detect := by decide
+example : report (stepS unitLen sY (.tab (.base (.subset [1, 2, 3])) (fun _ => 0) [3])) = some [3] := by decide
 example : report (stepS unitLen sY (.tab (.base (.removeNodes [9])) (fun _ => 0) [3, 6])) = some [6, 3] := by decide
 /-- the side conditions are needed: a vertex list with a repeated id / an assigned cyclic table -/
 example : wfB (applyX unitLen exY (.fromEdges [1, 1] [] [])) = false := by decide
